@@ -295,11 +295,22 @@ package main
 //@   requires c != nil && lockstate(c.activeAdsMutex) == 0
 //@   ensures lockstate(c.activeAdsMutex) == 0 && lockframe(c.activeAdsMutex)
 //@   modifies $held
+// notifyAdsChanged (abstracted mode): the two indexes it builds (prefix -> Services producing it, Service -> peers offered
+// one of its prefixes; C05's "reported as advertised to exactly the peers that are offered at least one of its prefixes")
+// are keyed consistently: an entry is created only for a key that has none, extended otherwise, always under the key
+// that was looked up (the prefix in its full address/length notation; the Service; the peer being walked)
 //@ func (*bgpController).notifyAdsChanged
-//@   lockonly
+//@   abstract
 //@   requires c != nil && lockstate(c.activeAdsMutex) == 0
 //@   ensures lockstate(c.activeAdsMutex) == 0 && lockframe(c.activeAdsMutex)
-//@   modifies $held
+//@   assert before New#1: [newPrefixOnly] ad != nil && ad.Prefix != nil ==> !(net.netstr(*ad.Prefix) in pfxToSvc)
+//@   assert before New#1: [firstProducer] len(arg0) == 1 && arg0[0] == svcKey
+//@   assert before Insert#1: [knownPrefix] ad != nil && ad.Prefix != nil ==> (net.netstr(*ad.Prefix) in pfxToSvc) && arg0 == pfxToSvc[net.netstr(*ad.Prefix)]
+//@   assert before Insert#1: [producer] len(arg1) == 1 && arg1[0] == svcKey
+//@   assert before New#2: [newServiceOnly] !(svc in newActiveAds) && len(arg0) == 1 && arg0[0] == peer
+//@   assert before Insert#2: [knownService] (svc in newActiveAds) && arg0 == newActiveAds[svc] && len(arg1) == 1 && arg1[0] == peer
+//@   exit assert [stored] c.activeAds == newActiveAds
+//@   modifies map[string]sets.Set[string], bgpController.activeAds, map[string]sets.Empty, fresh []string, $held
 // the change notifications (a channel send in the speaker) are delivered after the mutex was released
 //@ func (*bgpController).notifyAdsChanged$1
 //@   lockonly
@@ -383,7 +394,7 @@ package main
 //@   ensures [unlockedAfter] lockstate(c.activeAdsMutex) == 0 && lockframe(c.activeAdsMutex)
 //@   assert before notifyAdsChanged: [reportsPublished] arg1 == newAds && err == nil
 //@   exit assert [errorReturned] err != nil ==> result != nil && !called(notifyAdsChanged)
-//@   modifies map[string]sets.Set[string], bgpController.activeAds, $held
+//@   modifies map[string]sets.Set[string], map[string]sets.Empty, bgpController.activeAds, $held
 
 // bgpController.SetBalancer: the Service's list is emptied, then for every address and every pool advertisement that
 // selects this node exactly one route AdFor(...) is appended ([mk] at the only append into the list, [shape]); the
@@ -392,7 +403,7 @@ package main
 //@ func (*bgpController).SetBalancer
 //@   requires [adsUnlocked] lockstate(c.activeAdsMutex) == 0
 //@   requires c != nil && c.svcAds != nil && BGPPoolOK(pool) && ValidIPs(lbIPs)
-//@   modifies map(c.svcAds), fresh *bgp.Advertisement, fresh *net.IPNet, fresh []string, fresh []community.BGPCommunity, fresh []*bgp.Advertisement, fresh []interface{}, map[string]sets.Set[string], bgpController.activeAds, $held
+//@   modifies map(c.svcAds), fresh *bgp.Advertisement, fresh *net.IPNet, fresh []string, fresh []community.BGPCommunity, fresh []*bgp.Advertisement, fresh []interface{}, map[string]sets.Set[string], map[string]sets.Empty, bgpController.activeAds, $held
 //@   call sort.Slice with less(a, b) := community.CommLess(a, b)
 //@   assert before updateAds: [others] forall s string :: s != name ==> (s in c.svcAds) == old(s in c.svcAds) && sameSlice(c.svcAds[s], old(c.svcAds[s]))
 //@   assert before len#1: [reset] len(c.svcAds[name]) == 0
@@ -419,7 +430,7 @@ package main
 //@   requires c != nil && c.svcAds != nil
 //@   ensures [gone] !(name in c.svcAds)
 //@   ensures [others] forall s string :: s != name ==> (s in c.svcAds) == old(s in c.svcAds) && sameSlice(c.svcAds[s], old(c.svcAds[s]))
-//@   modifies map(c.svcAds), map[string]sets.Set[string], bgpController.activeAds, $held
+//@   modifies map(c.svcAds), map[string]sets.Set[string], map[string]sets.Empty, bgpController.activeAds, $held
 
 // ---- C09: what the speaker has announced is a function of the current inputs ----
 // The protocol handlers (BGP controller, layer-2 controller) are used through the Protocol interface. Their own
